@@ -413,15 +413,27 @@ const OUTS: [&str; 22] = ["true", "false", "0", "1", "no", "", "abc", " ", "FALS
 fn gen_branch_case(rng: &mut Rng) -> Case {
     use crate::props::c04::line;
     let s = |x: &str| x.to_string();
-    let ending = rng.below(3);
-    let wrapper = rng.below(5);
+    let ending = rng.below(5);
+    let mut wrapper = rng.below(7);
+    if wrapper == 5 && ending != 2 && ending != 4 {
+        // (a predicate that yields nothing to `not` — bare return, a removed variable, falling off
+        // its end — is always falsy: `while not p` would not end)
+        wrapper = 4;
+    }
     let mut ls: Vec<Vec<String>> = vec![];
     ls.push(line(None, if rng.chance(1, 2) { "fn" } else { "function" }, &[s("p")]));
     ls.push(line(Some("q"), "set", &[s("${o}")]));
     match ending {
         0 => {}
         1 => ls.push(line(None, "return", &[])),
-        _ => ls.push(line(None, "return", &[s("${r}")])),
+        2 => ls.push(line(None, "return", &[s("${r}")])),
+        3 => {
+            // a command WITHOUT output assigned to a variable that holds a value (the variable is
+            // removed), then that variable is returned: nothing comes back
+            ls.push(line(Some("q"), "emit", &[s("no-output")]));
+            ls.push(line(None, "return", &[s("${q}")]));
+        }
+        _ => ls.push(line(None, "return", &[s("${r}"), s("${o}")])),
     }
     ls.push(line(None, "end", &[]));
     // direct call: its output is the oracle
@@ -456,6 +468,29 @@ fn gen_branch_case(rng: &mut Rng) -> Case {
             ls.push(line(Some("r"), "set", &[s("false")]));
             ls.push(line(None, "end", &[]));
         }
+        4 => {
+            // negated, in condition position: `if not p …`
+            ls.push(line(Some("neg"), "set", &[s("1")]));
+            let mut c = vec![s("not")];
+            c.extend(call.clone());
+            ls.push(line(None, "if", &c));
+            ls.push(line(Some("b"), "set", &[s("then")]));
+            ls.push(line(None, "else", &[]));
+            ls.push(line(Some("b"), "set", &[s("else")]));
+            ls.push(line(None, "end", &[]));
+        }
+        5 => {
+            // `while not p …`: the body makes the predicate truthy for the next test
+            ls.push(line(Some("neg"), "set", &[s("1")]));
+            ls.push(line(Some("b"), "set", &[s("else")]));
+            let mut c = vec![s("not")];
+            c.extend(call.clone());
+            ls.push(line(None, "while", &c));
+            ls.push(line(Some("b"), "set", &[s("then")]));
+            ls.push(line(Some("o"), "set", &[s("true")]));
+            ls.push(line(Some("r"), "set", &[s("true")]));
+            ls.push(line(None, "end", &[]));
+        }
         _ => {
             // two-level: the predicate is called by another function used as the condition
             ls.insert(0, line(None, "end", &[]));
@@ -476,7 +511,7 @@ fn gen_branch_case(rng: &mut Rng) -> Case {
     let o = rng.pick_s(&OUTS);
     let r = rng.pick_s(&OUTS);
     let vars = format!("{}={},{}={}", enc_str("o"), enc_str(o), enc_str("r"), enc_str(r));
-    Case { req: format!("c04raw {} {} 600", toks.join(";"), vars), in_domain: true, nontrivial: true, tags: vec!["branch", ["fall-off-end", "bare-return", "return-value"][ending], ["if", "elseif", "not", "while", "if-two-level"][wrapper]] }
+    Case { req: format!("c04raw {} {} 600", toks.join(";"), vars), in_domain: true, nontrivial: true, tags: vec!["branch", ["fall-off-end", "bare-return", "return-value", "return-removed-variable", "return-two-words"][ending], ["if", "elseif", "not", "while", "if-not", "while-not", "if-two-level"][wrapper]] }
 }
 
 fn truthy(v: Option<&String>) -> bool {
@@ -496,7 +531,8 @@ fn branch_relation(imp: &str) -> Option<bool> {
     let rest = out.strip_prefix("M:ok_VARS_")?;
     let vars_tok = rest.split("_EMIT_").next()?;
     let vars: std::collections::HashMap<String, String> = crate::scripted::dec_vars(vars_tok).into_iter().collect();
-    let d = truthy(vars.get("d"));
+    // (`neg` marks the wrappers that negate the predicate)
+    let d = truthy(vars.get("d")) != vars.contains_key("neg");
     if let Some(n) = vars.get("n") {
         return Some((n == "true") == !d);
     }
